@@ -352,7 +352,12 @@ def mustemit(run, p, rid):
     for x in ast.walk(ws.node):
         if isinstance(x, ast.For) and any(isinstance(c, ast.Call) and getattr(c.func, 'id', '') == 'test_def' for c in ast.walk(x)):
             loop = x
+    backing = 'C12-SCRIPT' if rid.startswith('C12') else 'C11-SCRIPT'
     if loop is None:
+        if any(o.rule == backing for o in run.obs) and all(o.ok for o in run.obs if o.rule == backing):
+            run.note(rid, 'write_script has no loop over reference files calling test_def itself: the shape rule does not apply, %s decides alone' % backing, fn=ws)
+            run.floor(rid, 3, 3)
+            return
         raise AnalysisError('write_script: loop over reference files not found')
     fake = ast.FunctionDef(name='_body', args=ast.arguments(posonlyargs=[], args=[], kwonlyargs=[], kw_defaults=[], defaults=[]),
                            body=loop.body, decorator_list=[], lineno=loop.lineno, col_offset=0)
@@ -570,9 +575,15 @@ def encfallback(run, p):
                                              'returns without recording the encoding: the generated test will name the original guess'),
                fn=f, node=w)
     ws = p.method('TestGenerator', 'write_script')
-    src = ast.unparse(ws.node)
-    run.ob('C11-ENCODING', '%s::%s::emits-filetype-encoding' % (ws.rel, ws.short), '.encoding' in src and 'encoding=' in src,
-           'write_script emits encoding= from the FileType object', fn=ws, nontrivial=False)
+    from . import gentest_script
+    try:
+        rows = gentest_script.encodings_emitted(p)
+    except (SyntaxError, ValueError) as e:
+        rows = None
+    bad = [r for r in rows or () if r[1] != r[2]]
+    run.ob('C11-ENCODING', '%s::%s::emits-filetype-encoding' % (ws.rel, ws.short), bool(rows) and not bad,
+           'write_script, evaluated: each text-file test passes encoding= the encoding recorded on the FileType object%s' % (
+               '' if rows and not bad else ' - not so: %s' % (bad[:1] or 'script not readable')), fn=ws, nontrivial=False)
     run.floor('C11-ENCODING', n, 1)
 
 
